@@ -633,6 +633,47 @@ fn run(name: &str, j: &J) -> Result<bool, String> {
             println!("  {}: c is declared {}; a group of {} rows gives c = {}", q, field.data_type(), v, v);
             Ok(field.data_type().contains(&Value::integer(v)))
         }
+        // C05: the privacy-unit-preserving rewriting of a query with LIMIT keeps the LIMIT on the tracked relation: which rows of a
+        // unit survive then depends on the rows of the other units
+        "c05_tracked_map_limit" => {
+            use qrlew::{hierarchy::Hierarchy, expr::Identifier, sql::parse, privacy_unit_tracking::Strategy};
+            use std::sync::Arc;
+            let t: Relation = Relation::table().name("t").schema(vec![("id", DataType::integer_interval(0, 100)), ("a", DataType::float_interval(0., 10.))].into_iter().collect::<Schema>()).size(100).build();
+            let relations: Hierarchy<Arc<Relation>> = vec![t].iter().map(|t| (Identifier::from(t.name()), Arc::new(t.clone()))).collect();
+            let q = j["query"].as_str().unwrap_or("SELECT a FROM t LIMIT 10");
+            let relation = Relation::try_from(parse(q).map_err(|e| e.to_string())?.with(&relations)).map_err(|e| e.to_string())?;
+            let strategy = if j["strategy"].as_str() == Some("soft") { Strategy::Soft } else { Strategy::Hard };
+            let rw = relation.rewrite_as_privacy_unit_preserving(&relations, None, PrivacyUnit::from(vec![("t", vec![], "id")]), qrlew::differential_privacy::DpParameters::from_epsilon_delta(1., 1e-3), Some(strategy)).map_err(|e| e.to_string())?;
+            fn walk(r: &Relation, found: &mut bool) { if let Relation::Map(m) = r { if m.limit().is_some() || m.offset().is_some() { *found = true; } } for i in r.inputs() { walk(i, found); } }
+            let mut found = false; walk(rw.relation(), &mut found);
+            println!("  `{}` rewritten as privacy-unit preserving: {}", q, qrlew::ast::Query::from(rw.relation()).to_string().chars().take(400).collect::<String>());
+            println!("  the tracked relation carries a LIMIT / OFFSET: {}", found);
+            Ok(!found)
+        }
+        // C05: a RIGHT / FULL OUTER join of two tracked relations takes the unit id from the left side only: unmatched right rows get NULL
+        "c05_tracked_outer_join_unit" => {
+            use qrlew::{hierarchy::Hierarchy, expr::Identifier, sql::parse, privacy_unit_tracking::Strategy, relation::JoinOperator};
+            use std::sync::Arc;
+            let mk = |n: &str| -> Relation { Relation::table().name(n).schema(vec![("id", DataType::integer_interval(0, 100)), ("k", DataType::integer_interval(0, 5)), ("a", DataType::float_interval(0., 10.))].into_iter().collect::<Schema>()).size(100).build() };
+            let relations: Hierarchy<Arc<Relation>> = vec![mk("t"), mk("u")].iter().map(|t| (Identifier::from(t.name()), Arc::new(t.clone()))).collect();
+            let kind = j["join"].as_str().unwrap_or("RIGHT");
+            let q = format!("SELECT t.a AS ta, u.a AS ua FROM t {} JOIN u ON t.id = u.id", kind);
+            let relation = Relation::try_from(parse(&q).map_err(|e| e.to_string())?.with(&relations)).map_err(|e| e.to_string())?;
+            let rw = relation.rewrite_as_privacy_unit_preserving(&relations, None, PrivacyUnit::from(vec![("t", vec![], "id"), ("u", vec![], "id")]), qrlew::differential_privacy::DpParameters::from_epsilon_delta(1., 1e-3), Some(Strategy::Hard)).map_err(|e| e.to_string())?;
+            // find the Map directly above the tracked Join and look at the expression of its unit column
+            fn walk(r: &Relation, out: &mut Vec<(String, String)>) {
+                if let Relation::Map(m) = r { if let Relation::Join(jn) = m.input() {
+                    let preserved_right = matches!(jn.operator(), JoinOperator::RightOuter(_) | JoinOperator::FullOuter(_));
+                    if preserved_right { for (f, e) in m.schema().iter().zip(m.projection().iter()) { if f.name() == PrivacyUnit::privacy_unit() { out.push((jn.operator().to_string(), e.to_string())); } } }
+                } }
+                for i in r.inputs() { walk(i, out); }
+            }
+            let mut found = vec![]; walk(rw.relation(), &mut found);
+            let mut ok = true;
+            for (op, e) in &found { println!("  tracked {} : unit id := {}", op.chars().take(80).collect::<String>(), e); if !e.to_uppercase().contains("COALESCE") && !e.contains("_RIGHT_PRIVACY_UNIT_") { ok = false; } }
+            println!("  query: {}", q);
+            Ok(ok)
+        }
         _ => Err(format!("unknown replay `{}`", name)),
     }
 }
